@@ -40,6 +40,7 @@ fn floors(_t: Tier) -> Vec<(&'static str, u64)> {
 }
 
 thread_local! {
+    static LOSS_AGAIN: std::cell::Cell<f64> = std::cell::Cell::new(0.0);
     // one cost closure of each kind per worker, reused for every case: a closure is an object users keep and call with
     // batches of different sizes
     static SHARED_MSE: CostFunction = cost::mse();
@@ -142,6 +143,11 @@ pub fn run_case(ctx: &mut Ctx, fam: &str, _k: u64, r: &mut Rng) {
                     let o = Obs::of(&out);
                     let cost_arr = Obs::of(&costf(&out, &arr_t(&target)));
                     let loss = model.backward(arr_t(&target)) as f64;
+                    // the value is a function of the forward pass and the target, whenever it is asked for: also after
+                    // the parameters were updated
+                    model.update();
+                    let loss_again = model.backward(arr_t(&target)) as f64;
+                    LOSS_AGAIN.with(|l| l.set(loss_again));
                     (o, cost_arr, loss)
                 };
                 if spec.ce {
@@ -171,6 +177,10 @@ pub fn run_case(ctx: &mut Ctx, fam: &str, _k: u64, r: &mut Rng) {
                     let tscale = want_cost.v.iter().map(|x| x.abs()).sum::<f64>().max(1.0) * 10.0;
                     if !((loss - total).abs() <= tau() * tscale) {
                         ctx.violation("C15|model|backward-return", format!("{}: Model::backward returned {} but the cost array sums to {}", desc, loss, total));
+                    }
+                    let again = LOSS_AGAIN.with(|l| l.get());
+                    if !((again - total).abs() <= tau() * tscale) {
+                        ctx.violation("C15|model|backward-return-after-update", format!("{}: Model::backward called again after update (same forward pass, same target) returned {} but the cost array sums to {}", desc, again, total));
                     }
                 }
             }
